@@ -252,14 +252,15 @@ int main(int argc, char **argv) {
                 /* xSTEP input [state last_ts_s] : optionally force the public state first */
                 automata *a = c[0] == 'M' ? cur->mappingAutomata : c[0] == 'S' ? cur->sessionAutomata : cur->enumerationAutomata;
                 int input = atoi(tok[1]);
-                if (nt > 3) { a->current_state = (uint8_t)atoi(tok[2]); a->last_ts = strtoull(tok[3], NULL, 0); }
+                int forced = 0;
+                if (nt > 3) { a->current_state = (uint8_t)atoi(tok[2]); a->last_ts = strtoull(tok[3], NULL, 0); forced = 1; }
                 int s0 = a->current_state;
                 unsigned long long l0 = a->last_ts;
                 if (c[0] == 'M') switch_state_mapping(a, input, "verif");
                 else if (c[0] == 'S') switch_state_session(a, input, "verif");
                 else switch_state_enumeration(a, input, "verif");
                 ev_begin(c[0] == 'M' ? "mstep" : c[0] == 'S' ? "sstep" : "estep");
-                fprintf(tr, "\"in\":%d,\"s0\":%d,\"l0\":%llu,\"s1\":%d,\"l1\":%llu,\"nows\":%llu", input, s0, l0,
+                fprintf(tr, "\"forced\":%d,\"in\":%d,\"s0\":%d,\"l0\":%llu,\"s1\":%d,\"l1\":%llu,\"nows\":%llu", forced, input, s0, l0,
                         a->current_state, (unsigned long long)a->last_ts, (unsigned long long)(vp_now_ms / 1000));
                 ev_end();
             } else if (!strcmp(c, "TADD") || !strcmp(c, "TFIND") || !strcmp(c, "TREM") || !strcmp(c, "TCOMP")) {
